@@ -395,6 +395,7 @@ type boundsAnalysis struct {
 	nilCache  map[string]*nilSummary
 	trueCache map[*types.Func][]lin
 	posCache  map[*types.Func][]posSummary
+	valCache  map[*types.Func]*valueSummary
 }
 
 func newBoundsAnalysis(p *Prog, fns []*FuncInfo) *boundsAnalysis {
@@ -768,6 +769,10 @@ func (bf *boundsFunc) lenOf(e ast.Expr) (lin, bool) {
 // factsOfLit turns a branch literal into facts added to s.
 func (bf *boundsFunc) factsOfLit(s *bstate, l Lit) {
 	if l.Tag != nil {
+		if l.Truth {
+			// switch f(args) { case c: }: the callee's "unless default" facts
+			bf.valueCompareFacts(s, l.Tag, l.Expr)
+		}
 		// switch tag == value: only integer tags
 		a, ok1 := bf.linOf(l.Tag)
 		b, ok2 := bf.linOf(l.Expr)
@@ -818,6 +823,11 @@ func (bf *boundsFunc) factsOfLit(s *bstate, l Lit) {
 			default:
 				return
 			}
+		}
+		// f(args) == c with c not a default result of f: the facts under which f returns anything else
+		if op == token.EQL {
+			bf.valueCompareFacts(s, x.X, x.Y)
+			bf.valueCompareFacts(s, x.Y, x.X)
 		}
 		// err == nil / err != nil for an error assigned from a summarised call
 		if tv, ok := bf.info.Types[x.Y]; ok && tv.IsNil() && (op == token.EQL || op == token.NEQ) {
